@@ -57,10 +57,13 @@ pub fn make_data<L: SimLang>(eg: &EGraph<L, SimAn>, n: &L) -> AnData {
             _ => None,
         },
         "neg" => c(0).map(|a| (p - a) % p),
-        // sum over all field elements of a constant is p * c = 0
-        "sum" => c(0).map(|_| 0),
-        // r * (sum of a constant) = r * 0
-        "sumr" => c(1).map(|_| 0),
+        // sum over SUM_RANGE values of a constant
+        "sum" => c(0).map(|a| (crate::oracle::field::SUM_RANGE * a) % p),
+        "sumr" => match (c(0), c(1)) {
+            (Some(r), Some(a)) => Some((r * ((crate::oracle::field::SUM_RANGE * a) % p)) % p),
+            (Some(0), _) | (_, Some(0)) => Some(0),
+            _ => None,
+        },
         // let x = e in c  is c
         "let" if L::NAME == "LA" => c(0),
         _ => None,
